@@ -66,8 +66,32 @@ func c09Run(c *fw.Case, env *fw.Env) *fw.Obs {
 				ref.SaveRef(w.remoteRS, "heads/old", w.h.sums[w.h.parents[mid][0]], "setup", "s@x", "setup", "old branch", nil)
 				class += "/ref-on-shallow-commit"
 			}
+			if p.PreOldTag && len(w.h.parents[mid]) > 0 {
+				// a tag there that no refspec names: fetch follows tags whose commit it finds locally
+				ref.SaveRef(w.remoteRS, "tags/oldtag", w.h.sums[w.h.parents[mid][0]], "setup", "s@x", "setup", "old tag", nil)
+				class += "/tag-on-shallow-commit"
+			}
 			o.Ev("fetches_after_an_earlier_shallow_fetch", 1)
 			class += "/after-shallow-fetch"
+		}
+	}
+	if p.Collide && p.Op == "fetch" && len(w.plans) > 0 && w.plans[0].Remote >= 0 {
+		// the remote has a tag named like the branch, on a commit the branch does not reach; the configuration sends
+		// both to one destination. Which of the two wins is wrgl's business - whichever it stores must be complete.
+		pl := w.plans[0]
+		var cands []int
+		for c := range w.h.sums {
+			if !w.h.anc[pl.Remote][c] {
+				cands = append(cands, c)
+			}
+		}
+		if len(cands) > 0 {
+			t := cands[rng.Intn(len(cands))]
+			if err := w.h.copyCommitClosure(w.all, w.remoteDB, t); err == nil {
+				ref.SaveRef(w.remoteRS, "tags/"+pl.Name, w.h.sums[t], "setup", "s@x", "setup", "tag named like the branch", nil)
+				class += "/two-sources-one-destination"
+				o.Ev("fetches_with_colliding_destinations", 1)
+			}
 		}
 	}
 	if p.ShallowLocal > 0 && p.Op == "push" {
@@ -284,7 +308,8 @@ func c09Run(c *fw.Case, env *fw.Env) *fw.Obs {
 		}
 	}
 	// an immediately repeated exchange transfers nothing and changes nothing
-	if out.err == nil && p.Op != "pull" {
+	if out.err == nil && p.Op != "pull" && !strings.HasSuffix(class, "/two-sources-one-destination") {
+		// (with two sources for one destination the configuration itself is ambiguous: a repeat may pick the other one)
 		again := runNetOp(w, &p, args)
 		o.Ev("repeat_exchanges", 1)
 		if again.panicText != "" || again.err != nil {
@@ -411,10 +436,17 @@ func init() {
 				l.Add("fetch", netParams{Op: "fetch", BaseRows: []int{4, 300}[i%2], Shape: chain(n), RevertTo: map[int]int{n - 1: i % mid}, Pre: "shallow-fetch", PreMid: mid, HavesRT: 256}, int64(2450+i))
 				if i%2 == 0 {
 					l.Add("fetch", netParams{Op: "fetch", BaseRows: 4, Shape: chain(n), Pre: "shallow-fetch", PreMid: mid, PreOld: true, HavesRT: 256}, int64(2470+i))
+					l.Add("fetch", netParams{Op: "fetch", BaseRows: 4, Shape: chain(n), Pre: "shallow-fetch", PreMid: mid, PreOld: true, Depth: 1 + i/2%2, HavesRT: 256}, int64(2490+i))
+				} else {
+					l.Add("fetch", netParams{Op: "fetch", BaseRows: 4, Shape: chain(n), Pre: "shallow-fetch", PreMid: mid, PreOldTag: true, Depth: i / 2 % 2, HavesRT: 256}, int64(2510+i))
 				}
 			}
 			for i := 0; i < 6; i++ {
 				l.Add("push", netParams{Op: "push", N: 7 + i%4, BaseRows: 4, Branches: 1, Rel: "new", ShallowLocal: 1 + i%2}, int64(2500+i))
+			}
+			// fixed: a branch and a tag of the same name sent to one destination by two refspecs
+			for i := 0; i < 8; i++ {
+				l.Add("fetch", netParams{Op: "fetch", N: 6 + i%5, BaseRows: 4, Branches: 1 + i%2, Rel: "new", Collide: true, Depth: []int{0, 0, 0, 1}[i%4]}, int64(2530+i))
 			}
 			for i := 0; i < l.N(60, 4000); i++ {
 				p := netParams{N: 3 + rng.Intn(10), BaseRows: []int{4, 30, 300}[rng.Intn(3)], Branches: 1 + rng.Intn(3), MaxPack: packs[rng.Intn(len(packs))], Tags: rng.Intn(3) == 0}
